@@ -86,6 +86,11 @@ pub struct St {
     /// bit t: thread t has reached its first scheduling point (only tracked with `Opts::yield_sem`:
     /// scheduling a freshly spawned thread takes it to its first operation without performing it)
     arrived: u8,
+    /// (`Opts::yield_sem`) some yield on the path was followed by an operation of another thread
+    /// that does not conflict with the yielding thread's next operation: whether the yielding
+    /// thread is placed exactly there depends on an order of two independent operations, which a
+    /// partial-order reduction does not enumerate (finding F13)
+    nonrobust: bool,
     /// relaxed probe stores seen so far in the replay: (location, value, thread, own clock component)
     probes: Vec<(u8, u8, u8, u8)>,
     ck: Option<Box<(Clocks, Clocks)>>,
@@ -127,6 +132,8 @@ impl LeakKinds {
 pub struct ScResult {
     /// results at terminal states without a leak
     pub outcomes: BTreeSet<Outcome>,
+    /// (`Opts::yield_sem`) results at terminal states reached without a non-robust yield placement
+    pub robust_outcomes: BTreeSet<Outcome>,
     /// results at terminal states with a leak
     pub leak_outcomes: BTreeSet<Outcome>,
     pub leaks: LeakKinds,
@@ -239,6 +246,7 @@ impl<'a> Sc<'a> {
             logpos: 0,
             yielded: None,
             arrived: if self.opts.yield_sem { 1 } else { 0xff },
+            nonrobust: false,
             probes: vec![],
             ck: if self.opts.clocks { Some(Box::new((mk(), mk()))) } else { None },
         }
@@ -1006,6 +1014,24 @@ impl<'a> Sc<'a> {
                     continue;
                 }
                 let is_yield = matches!(self.prog.threads[t].get(st.pc[t] as usize), Some(Op::Yield));
+                // does this step, taken while `y` sits out, conflict with y's next operation?
+                let absorbs_nonrobust = match sit_out {
+                    Some(y) => {
+                        let mine = self.prog.threads[t].get(st.pc[t] as usize);
+                        let next = self.prog.threads[y].get(st.pc[y] as usize);
+                        let wloc = match mine {
+                            Some(Op::Store { a, .. }) | Some(Op::Swap { a, .. }) | Some(Op::FetchAdd { a, .. }) | Some(Op::Cas { a, .. }) => Some(*a),
+                            _ => None,
+                        };
+                        let rloc = match next {
+                            Some(Op::Load { a, .. }) | Some(Op::Await { a, .. }) | Some(Op::Swap { a, .. }) | Some(Op::FetchAdd { a, .. }) | Some(Op::Cas { a, .. }) => Some(*a),
+                            _ => None,
+                        };
+                        // (steps that are not writes - arriving, exiting, joins, loads - change nothing the yielding thread can see)
+                        wloc.is_some() && wloc != rloc
+                    }
+                    None => false,
+                };
                 for s in steps.drain(..) {
                     any = true;
                     match s {
@@ -1014,6 +1040,7 @@ impl<'a> Sc<'a> {
                             stack.push(s)
                         }
                         Step::Done(mut s) => {
+                            s.nonrobust |= absorbs_nonrobust;
                             s.yielded = if self.opts.yield_sem && is_yield { Some(t as u8) } else { None };
                             stack.push(s)
                         }
@@ -1036,6 +1063,9 @@ impl<'a> Sc<'a> {
                         r.leak_outcomes.insert(st.res.clone());
                     } else {
                         r.outcomes.insert(st.res.clone());
+                        if !st.nonrobust {
+                            r.robust_outcomes.insert(st.res.clone());
+                        }
                     }
                     for (x, d) in st.arc_payload_drops.iter().enumerate() {
                         if *d > 1 {
